@@ -512,10 +512,16 @@ def inline_new_helpers(facts):
         m_ = _re2.match(r"^<(.+) as ([^>]+(?:<.*>)?)>::([A-Za-z_0-9]+)$", p)
         if m_ and p not in pinned and f.get("body") is not None and m_.group(2) not in old_traits and not m_.group(2).startswith(("std::", "core::", "alloc::", "rayon::")):
             impls.setdefault(m_.group(2) + "::" + m_.group(3), []).append((m_.group(1), p))
+        elif m_ and p not in pinned and f.get("body") is not None and m_.group(3) in ("from", "default") and m_.group(2).startswith(("std::convert::From", "std::default::Default")):
+            # a new `impl From<..> for LocalType` / `impl Default for LocalType` (a private parameter bundle): chosen by the type that is produced
+            impls.setdefault(m_.group(2).split("<", 1)[0] + "::" + m_.group(3), []).append((m_.group(1), p))
     if impls:
         types = facts.get("types") or []
 
         def self_ty(x):
+            if _callee(x) in ("std::convert::From::from", "std::default::Default::default"):
+                ti = x.get("t")
+                return _strip_ref_ty0(types[ti]) if ti is not None and ti < len(types) else None
             r = x.get("recv") if x.get("k") == "mcall" else (x["args"][0] if x.get("args") else None)
             if r is None:
                 return None
